@@ -35,13 +35,17 @@ theorem stepNG_okN (s : Shared) (b : Bool) (ng : NG) (hi : InUseBeyond s) (hb : 
     fun n v => hb.setNode_frame n _ (fun _ => ⟨rfl, rfl⟩)
   cases ng with
   | trav => simp only [stepNG]; exact ⟨by split <;> trivial, hi, hb, Nat.le_refl _⟩
-  | cc0 n => simp only [stepNG]; exact ⟨by split <;> trivial, hi, hb, Nat.le_refl _⟩
-  | cc1 n => simp only [stepNG]; exact ⟨by split <;> trivial, hi, hb, Nat.le_refl _⟩
-  | cc2 n =>
+  | cc0 n =>
     simp only [stepNG]; split
     · rename_i hv
       exact ⟨trivial, frameI n _ (by rw [hv]; exact hd.2.1.symm), frameB n _, Nat.le_refl _⟩
     · exact ⟨trivial, hi, hb, Nat.le_refl _⟩
+  | cc1 n => simp only [stepNG]; exact ⟨trivial, hi, hb, Nat.le_refl _⟩
+  | cc2 n idle =>
+    simp only [stepNG]; split
+    · rename_i hv
+      exact ⟨trivial, frameI n _ (by rw [hv]; exact Consts.node_checking_distinct.1), frameB n _, Nat.le_refl _⟩
+    · exact ⟨trivial, fun m hm => by simpa using hi m (by simpa using hm), fun m hm => by simpa using hb m (by simpa using hm), by simp⟩
   | claim n =>
     simp only [stepNG]; split
     · rename_i hv
